@@ -66,6 +66,10 @@ package masks
 //@   requires [SEQ] [reset-mask-valid] recv.resetMask != nil ==> pathsvalid(recv.resetMask.Paths, dst)     // established by Validate
 //@   ensures [empty-writable] old(recv.writableFields) != nil && len(old(recv.writableFields.Paths)) == 0 ==> msgval(dst) == old(msgval(dst)) && msgval(src) == old(msgval(src))
 //@   ensures [empty-mask] (old(recv.writableFields) == nil || len(old(recv.writableFields.Paths)) > 0) && old(recv.updateMask) != nil && len(old(recv.updateMask.Paths)) == 0 ==> msgval(dst) == old(msgval(dst))
+//@   // C05: the reset mask is applied LAST: whatever the merge produced, the fields it names are cleared from the result
+//@   ensures [reset-last] old(recv.resetMask) != nil && len(old(recv.resetMask.Paths)) > 0 && (old(recv.updateMask) == nil || len(old(recv.updateMask.Paths)) > 0) &&
+//@   |   (old(recv.writableFields) == nil || len(old(recv.writableFields.Paths)) > 0) ==>
+//@   |   (exists pre mathint :: msgval(dst) == pruned(pre, old(recv.resetMask.Paths)))
 //@   ensures [frame] msgframe(dst, src)
 //@   modifies msgs, ghost$msg
 //@
